@@ -199,11 +199,11 @@ def run(chk):
             chk.ok("C15.rangeguard", t.ast, "the 416 test is applied to the final value of `start` (no redefinition between the test and the Content-Range / seek uses)")
     # ---- rangelex --------------------------------------------------------------------------------------------------------------------
     hr = repo.func(WR, "BaseRequest.http_range")
-    pat = norm.fn_defs(hr.node).defs.get("pattern", [])
-    fa = K.exprs(hr, "re.findall(pattern, rng, re.ASCII)")
+    fa = K.exprs(hr, "re.findall($P, rng, re.ASCII)")
+    patx = norm.subst(fa[0][1]["P"], fa[0][0]) if fa else None  # the pattern, written in place or through a local
     ints = [c for c in prog.calls_in(hr.node) if isinstance(c.func, ast.Name) and c.func.id == "int"]
-    if pat and isinstance(pat[0][1], ast.Constant) and fa and len(ints) == 2:
-        p = pat[0][1].value
+    if patx is not None and isinstance(patx, ast.Constant) and isinstance(patx.value, str) and len(ints) == 2:
+        p = patx.value
         for gi in (1, 2):
             okg, w = R.subset(R.group_lang(p, re.ASCII, gi), R.lang("[0-9]*", 0, "fullmatch"))
             if not okg:
